@@ -33,6 +33,7 @@ type Facts struct {
 	Funcs         map[string]*FuncFacts  `json:"funcs"`         // F4-F8 per function (module-local)
 	ExternalCalls []ExtCall              `json:"external_calls"`
 	Sites         []*Site                `json:"sites"`                  // F8
+	LoopState     []LoopVar              `json:"loop_state"`             // F13
 	Excluded      []ExcludedReg          `json:"excluded_registrations"` // F1: registration calls in files outside the default build
 	Errors        []string               `json:"errors"`
 	Stats         map[string]int         `json:"stats"`
@@ -71,6 +72,7 @@ type Registration struct {
 	ObjAppends        []string `json:"obj_appends"`
 	SensitiveBodyHash string   `json:"sensitive_body_hash,omitempty"`
 	ctorPos           token.Pos
+	// F13 (per function, see loops.go): in Facts.LoopState
 	// F11
 	LoopStatuses map[string][]int `json:"loop_statuses,omitempty"`
 }
@@ -147,6 +149,7 @@ func main() {
 	reachAll, appliesOf := appliesIndex()
 	censusSites(pkgs, reachAll, appliesOf)
 	facts.Sites = sites
+	censusLoops(reachAll)
 	debugApplies()
 	translateBodies(pkgs, byPath)
 
